@@ -1277,6 +1277,46 @@ pub fn run(line: &str) -> String {
     if r.is_err() && c.w.accounts != before {
         out.push_str(" STORE-CHANGED");
     }
+    if mode == "emis" && r.is_ok() {
+        // emissions payout bookkeeping of the executed instruction: outstanding emissions of the position before / after,
+        // change of the emissions vault, of the destination token account and of the bank's funded remaining amount
+        let mut keys: BTreeMap<String, Pubkey> = BTreeMap::new();
+        for fo in field(&toks, "a").split(',') {
+            if let Some((fname, obj)) = fo.split_once(':') {
+                let k = c.resolve(obj);
+                keys.insert(fname.to_string(), k);
+            }
+        }
+        let key_of_field = |n: &str| -> Option<Pubkey> { keys.get(n).copied() };
+        let mut w0 = World::new();
+        w0.accounts = before.clone();
+        if let (Some(acc), Some(bank)) = (key_of_field("marginfi_account"), key_of_field("bank")) {
+            let out_of = |w: &World| -> i128 {
+                w.get::<MarginfiAccount>(&acc)
+                    .and_then(|a| {
+                        a.lending_account
+                            .balances
+                            .iter()
+                            .find(|b| b.is_active() && b.bank_pk == bank)
+                            .map(|b| I80F48::from(b.emissions_outstanding).to_bits())
+                    })
+                    .unwrap_or(0)
+            };
+            let rem_of = |w: &World| -> i128 {
+                w.get::<Bank>(&bank).map(|b| I80F48::from(b.emissions_remaining).to_bits()).unwrap_or(0)
+            };
+            let (v, d) = (key_of_field("emissions_vault"), key_of_field("destination_account"));
+            let bal = |w: &World, k: &Option<Pubkey>| -> i128 { k.map(|k| w.token_balance(&k) as i128).unwrap_or(0) };
+            out.push_str(&format!(
+                " E {} {} {} {} {}",
+                out_of(&w0),
+                out_of(&c.w),
+                bal(&c.w, &v) - bal(&w0, &v),
+                bal(&c.w, &d) - bal(&w0, &d),
+                rem_of(&c.w) - rem_of(&w0)
+            ));
+        }
+    }
     out
 }
 
